@@ -263,9 +263,20 @@ func runWith(flat map[string]any, budget int, comps ...any) (kit.Outcome, *count
 	return out, cb
 }
 
-func structWith(typ reflect.Type, tagKey, tagVal string) reflect.Value {
-	t := reflect.StructOf([]reflect.StructField{{Name: "F", Type: typ, Tag: reflect.StructTag(tagKey + ":" + strconv.Quote(tagVal))}})
+// structWith builds a component with the field under test (F) between drawn decoy fields of other kinds.
+func structWith(d *kit.Decoys, typ reflect.Type, tagKey, tagVal string) reflect.Value {
+	t := reflect.StructOf(d.Around(reflect.StructField{Name: "F", Type: typ, Tag: reflect.StructTag(tagKey + ":" + strconv.Quote(tagVal))}))
 	return reflect.New(t)
+}
+
+// decoysOK: after a successful start the neighbouring fields hold what they must.
+func decoysOK(t *rapid.T, d *kit.Decoys, out kit.Outcome, obj reflect.Value, desc string) {
+	if out.Err != nil || out.Panic != nil {
+		return
+	}
+	if err := d.Check(obj); err != nil {
+		t.Fatalf("C16: %v\n%s", err, desc)
+	}
 }
 
 // ---- value carrier ------------------------------------------------------------------------------
@@ -290,18 +301,20 @@ func propValue(t *rapid.T) {
 		if rapid.IntRange(0, 3).Draw(t, "optional") == 0 {
 			tagText += ",required=false" // an optional property resolves exactly the same way
 		}
-		obj := structWith(reflect.TypeOf(""), "value", tagText)
+		dc := kit.DrawDecoys(t)
+		obj := structWith(dc, reflect.TypeOf(""), "value", tagText)
 		budget := 100*r.steps + 1000
 		out, cb := runWith(flat, budget, obj.Interface())
-		desc := fmt.Sprintf("value:%q cfg{%s}", text, cfgString(flat))
+		desc := fmt.Sprintf("value:%q cfg{%s}%s", text, cfgString(flat), dc)
+		decoysOK(t, dc, out, obj, desc)
 		if out.Panic != nil {
 			if b, ok := out.Panic.(graph.BudgetExceeded); ok {
 				t.Fatalf("C16: placeholder resolution does not terminate: %v (reference: %d steps, cyclic=%v)\n%s", b, r.steps, rerr != nil, desc)
 			}
 			t.Fatalf("C16: panic %v\n%s", out.Panic, desc)
 		}
-		got := obj.Elem().Field(0).String()
-		labels := []string{}
+		got := obj.Elem().FieldByName("F").String()
+		labels := dc.Labels()
 		if rerr != nil {
 			labels = append(labels, "cyclic")
 			if out.Err == nil && got != "" {
@@ -347,9 +360,11 @@ func TestPrefix(t *testing.T) {
 		}
 		r := &ref{cfg: flat}
 		key, rerr := r.resolve(text, map[string]bool{})
-		obj := structWith(reflect.TypeOf(0), "prefix", tag)
+		dc := kit.DrawDecoys(t)
+		obj := structWith(dc, reflect.TypeOf(0), "prefix", tag)
 		out, _ := runWith(flat, 100*r.steps+1000, obj.Interface())
-		desc := fmt.Sprintf("prefix:%q cfg{%s}", tag, cfgString(flat))
+		desc := fmt.Sprintf("prefix:%q cfg{%s}%s", tag, cfgString(flat), dc)
+		decoysOK(t, dc, out, obj, desc)
 		if out.Panic != nil {
 			t.Fatalf("C16: panic %v\n%s", out.Panic, desc)
 		}
@@ -357,7 +372,7 @@ func TestPrefix(t *testing.T) {
 			t.Skip("cyclic selector")
 		}
 		want, present := flat[key]
-		got := int(obj.Elem().Field(0).Int())
+		got := int(obj.Elem().FieldByName("F").Int())
 		switch {
 		case present:
 			if out.Err != nil || got != want.(int) {
@@ -397,9 +412,11 @@ func TestWire(t *testing.T) {
 		}
 		a := zoo.ProviderKinds[0].New(&zoo.Beh{Alias: "alpha"})
 		b := zoo.ProviderKinds[0].New(&zoo.Beh{Alias: "beta"})
-		obj := structWith(reflect.TypeOf((*zoo.IAll)(nil)).Elem(), "wire", text)
+		dc := kit.DrawDecoys(t)
+		obj := structWith(dc, reflect.TypeOf((*zoo.IAll)(nil)).Elem(), "wire", text)
 		out, _ := runWith(flat, 100*r.steps+1000, obj.Interface(), a, b)
-		desc := fmt.Sprintf("wire:%q cfg{%s}", text, cfgString(flat))
+		desc := fmt.Sprintf("wire:%q cfg{%s}%s", text, cfgString(flat), dc)
+		decoysOK(t, dc, out, obj, desc)
 		if out.Panic != nil {
 			t.Fatalf("C16: panic %v\n%s", out.Panic, desc)
 		}
@@ -410,7 +427,7 @@ func TestWire(t *testing.T) {
 		case "beta":
 			want = b
 		}
-		got := obj.Elem().Field(0).Interface()
+		got := obj.Elem().FieldByName("F").Interface()
 		if want != nil {
 			if out.Err != nil || got != want {
 				t.Fatalf("C16: wire resolves to component %q but the field holds %v (err %v)\n%s", name, got, out.Err, desc)
